@@ -468,6 +468,34 @@ func applyTagOption(d lazyproto.Def, tag, opt int, subs []lazyproto.Def) {
 	}
 }
 
+func cloneDef(d lazyproto.Def) lazyproto.Def {
+	if d == nil {
+		return nil
+	}
+	out := lazyproto.Def{}
+	for k, v := range d {
+		out[k] = cloneDef(v)
+	}
+	return out
+}
+
+// wreckDef changes every level of d in place: nested definitions lose their tags and gain others, the top level gains tags.
+func wreckDef(d lazyproto.Def) {
+	for k, v := range d {
+		if v != nil {
+			wreckDef(v)
+			for kk := range v {
+				delete(v, kk)
+			}
+			v[9] = nil
+			v[-9] = nil
+		}
+		_ = k
+	}
+	d[8] = nil
+	d[-8] = nil
+}
+
 func worker(sh *ev.Shard) {
 	c := &checker{sh: sh, accs: lazyref.BuildAccessors()}
 	subs := subDefs()
@@ -564,10 +592,15 @@ func worker(sh *ev.Shard) {
 			if (di+mi)%2 == 1 {
 				opts = append(opts, lazyproto.WithMaxBufferSize(1))
 			}
-			dec, err := lazyproto.NewDecoder(defs[di], opts...)
+			// the Decoder is built from a PRIVATE copy of the definition, and the copy is wrecked right afterwards (nested
+			// definitions emptied, bogus tags added at every level): a Def is a map the caller keeps and may reuse for the
+			// next decoder; what a Decoder decodes is the definition it was created with
+			own := cloneDef(defs[di])
+			dec, err := lazyproto.NewDecoder(own, opts...)
 			if err != nil {
 				sh.Internal("NewDecoder(%s): %v", defString(defs[di]), err)
 			}
+			wreckDef(own)
 			out[mi] = dec
 		}
 		decCache[di] = out
